@@ -98,6 +98,7 @@ func main() {
 // ---- worker -------------------------------------------------------------------
 
 type workerOut struct {
+	Start *uint64       `json:"start,omitempty"`
 	Fail  *runResult    `json:"fail,omitempty"`
 	Stats *engine.Stats `json:"stats,omitempty"`
 	Runs  int64         `json:"runs,omitempty"`
@@ -157,6 +158,9 @@ func cmdWorker(args []string) int {
 			break
 		}
 		idx := *from + i**step
+		if simrt.RaceBuild {
+			out.Encode(workerOut{Start: &idx})
+		}
 		c := simrt.NewSearchChooser(*seed, idx)
 		res := runOne(e, c, -1, o, stats, false)
 		nruns++
@@ -301,56 +305,94 @@ func cmdCheck(args []string) int {
 	var mu sync.Mutex
 	var wg sync.WaitGroup
 	trouble := false
+	var raceFails []*raceFail
 	launch := func(bin string, w, nw int, runs uint64, secs float64, enumN int, tag string) {
 		defer wg.Done()
 		per := (runs + uint64(nw) - 1) / uint64(nw)
-		a := []string{"worker", "-engine", *eng, "-tier", *tier, "-seed", fmt.Sprint(*seed), "-from", fmt.Sprint(w), "-step", fmt.Sprint(nw),
-			"-runs", fmt.Sprint(per), "-seconds", fmt.Sprint(secs), "-known", *known,
-			"-enum-from", fmt.Sprint(w), "-enum-step", fmt.Sprint(nw), "-enum-n", fmt.Sprint(enumN)}
-		cmd := exec.Command(bin, a...)
-		cmd.Stderr = os.Stderr
-		cmd.Env = append(os.Environ(), "GORACE=halt_on_error=1 exitcode=66")
-		stdout, _ := cmd.StdoutPipe()
-		if err := cmd.Start(); err != nil {
-			fmt.Fprintln(os.Stderr, "worker start:", err)
+		from := uint64(w)
+		deadline := time.Now().Add(time.Duration(secs * float64(time.Second)))
+		for relaunch := 0; relaunch < 6 && per > 0; relaunch++ {
+			left := time.Until(deadline).Seconds()
+			if left <= 0 {
+				return
+			}
+			a := []string{"worker", "-engine", *eng, "-tier", *tier, "-seed", fmt.Sprint(*seed), "-from", fmt.Sprint(from), "-step", fmt.Sprint(nw),
+				"-runs", fmt.Sprint(per), "-seconds", fmt.Sprint(left), "-known", *known,
+				"-enum-from", fmt.Sprint(w), "-enum-step", fmt.Sprint(nw), "-enum-n", fmt.Sprint(enumN)}
+			cmd := exec.Command(bin, a...)
+			var errBuf strings.Builder
+			if tag == "" {
+				cmd.Stderr = os.Stderr
+			} else {
+				cmd.Stderr = &errBuf
+			}
+			cmd.Env = append(os.Environ(), "GORACE=halt_on_error=1 exitcode=66")
+			stdout, _ := cmd.StdoutPipe()
+			if err := cmd.Start(); err != nil {
+				fmt.Fprintln(os.Stderr, "worker start:", err)
+				mu.Lock()
+				trouble = true
+				mu.Unlock()
+				return
+			}
+			sc := bufio.NewScanner(stdout)
+			sc.Buffer(make([]byte, 1<<20), 1<<30)
+			lastStart := uint64(0)
+			started := uint64(0)
+			for sc.Scan() {
+				var wo workerOut
+				if err := json.Unmarshal(sc.Bytes(), &wo); err != nil {
+					continue
+				}
+				if wo.Start != nil {
+					lastStart = *wo.Start
+					started++
+					continue
+				}
+				mu.Lock()
+				if wo.Fail != nil {
+					fails = append(fails, wo.Fail)
+				}
+				if wo.Stats != nil {
+					if tag != "" {
+						pref := engine.NewStats()
+						for k, v := range wo.Stats.Counters {
+							pref.Counters[tag+k] = v
+						}
+						pref.SigList = wo.Stats.SigList
+						total.Merge(pref)
+						total.Counters[tag+"runs"] += wo.Runs
+					} else {
+						total.Merge(wo.Stats)
+						nruns += wo.Runs
+						nenum += wo.Enum
+					}
+				}
+				mu.Unlock()
+			}
+			err := cmd.Wait()
+			if err == nil {
+				return
+			}
+			if ee, ok := err.(*exec.ExitError); ok && ee.ExitCode() == 66 && tag != "" && strings.Contains(errBuf.String(), "DATA RACE") {
+				mu.Lock()
+				raceFails = append(raceFails, &raceFail{Idx: lastStart, Report: errBuf.String()})
+				total.Counters[tag+"runs"] += int64(started)
+				mu.Unlock()
+				// go on after the run that died
+				enumN = 0
+				if started >= per {
+					return
+				}
+				per -= started
+				from = lastStart + uint64(nw)
+				continue
+			}
+			fmt.Fprintf(os.Stderr, "worker %d (%s) exited: %v\n%s", w, filepath.Base(bin), err, errBuf.String())
 			mu.Lock()
 			trouble = true
 			mu.Unlock()
 			return
-		}
-		sc := bufio.NewScanner(stdout)
-		sc.Buffer(make([]byte, 1<<20), 1<<30)
-		for sc.Scan() {
-			var wo workerOut
-			if err := json.Unmarshal(sc.Bytes(), &wo); err != nil {
-				continue
-			}
-			mu.Lock()
-			if wo.Fail != nil {
-				fails = append(fails, wo.Fail)
-			}
-			if wo.Stats != nil {
-				if tag != "" {
-					pref := engine.NewStats()
-					for k, v := range wo.Stats.Counters {
-						pref.Counters[tag+k] = v
-					}
-					pref.SigList = wo.Stats.SigList
-					total.Merge(pref)
-					total.Counters[tag+"runs"] += wo.Runs
-				} else {
-					total.Merge(wo.Stats)
-					nruns += wo.Runs
-					nenum += wo.Enum
-				}
-			}
-			mu.Unlock()
-		}
-		if err := cmd.Wait(); err != nil {
-			fmt.Fprintf(os.Stderr, "worker %d (%s) exited: %v\n", w, filepath.Base(bin), err)
-			mu.Lock()
-			trouble = true
-			mu.Unlock()
 		}
 	}
 	enumN := e.Enumerated(*tier)
@@ -464,6 +506,60 @@ func cmdCheck(args []string) int {
 		reports = append(reports, map[string]any{"key": k, "msg": fv.Msg, "replay": path, "choices": len(min), "original_choices": len(f.Choices)})
 	}
 
+	// ---- data races reported by the -race binary under simulator schedules
+	raceSeen := map[string]bool{}
+	for _, rf := range raceFails {
+		class := raceClass(rf.Report)
+		if raceSeen[class] {
+			continue
+		}
+		raceSeen[class] = true
+		v := &engine.Violation{Property: *prop, Oracle: "race-detector", Class: class, Msg: "data race reported by the Go race detector under a simulator-chosen schedule:\n" + trimReport(rf.Report)}
+		isKnown := false
+		for _, k := range kf {
+			if k.Status == "open" && k.Property == *prop && k.Oracle == "race-detector" && k.Class == class {
+				isKnown = true
+				total.Counters["known:"+k.ID]++
+			}
+		}
+		if isKnown {
+			continue
+		}
+		// the choice list of that run, from the plain binary (same seed => same choices)
+		c := simrt.NewSearchChooser(*seed, rf.Idx)
+		plain := runOne(e, c, -1, o, engine.NewStats(), true)
+		f := &runResult{Idx: rf.Idx, Param: -1, Choices: plain.Choices}
+		raceReplay := func(choices []int) bool {
+			tmp := writeReplay(os.TempDir(), *prop, *eng, v, *seed, f, choices, nil, *tier, true, *repoHead, "")
+			defer os.Remove(tmp)
+			cmd := exec.Command(*raceBin, "replay", "-file", tmp, "-json", "-known", *known)
+			cmd.Env = append(os.Environ(), "GORACE=halt_on_error=1 exitcode=66")
+			var eb strings.Builder
+			cmd.Stderr = &eb
+			err := cmd.Run()
+			ee, ok := err.(*exec.ExitError)
+			return ok && ee.ExitCode() == 66 && raceClass(eb.String()) == class
+		}
+		if !raceReplay(plain.Choices) || !raceReplay(plain.Choices) {
+			fmt.Fprintf(os.Stderr, "harness trouble: data race %s of run %d does not reproduce from its choice list in a fresh process\n", class, rf.Idx)
+			fmt.Fprintln(os.Stderr, trimReport(rf.Report))
+			return 2
+		}
+		min := shrink(plain.Choices, func(ch []int) (*runResult, bool) {
+			return &runResult{Choices: ch}, raceReplay(ch)
+		}, 150)
+		c2 := simrt.NewReplayChooser(min)
+		final := runOne(e, c2, -1, o, engine.NewStats(), true)
+		path := writeReplay(*replays, *prop, *eng, v, *seed, f, min, final.Trace, *tier, true, *repoHead, "")
+		fmt.Printf("VIOLATION property=%s replay=%s\n", *prop, path)
+		fmt.Printf("  %s: %s\n", v.Key(), v.Msg)
+		for _, l := range final.Trace {
+			fmt.Println("    " + l)
+		}
+		nviol++
+		reports = append(reports, map[string]any{"key": v.Key(), "msg": trunc(v.Msg, 2000), "replay": path, "choices": len(min), "original_choices": len(plain.Choices)})
+	}
+
 	// ---- known findings hit
 	var knownHit []string
 	for _, k := range kf {
@@ -560,6 +656,59 @@ func cmdCheck(args []string) int {
 		return 1
 	}
 	return 0
+}
+
+type raceFail struct {
+	Idx    uint64
+	Report string
+}
+
+// raceClass names a race report by the functions of its two top frames.
+func raceClass(report string) string {
+	var fns []string
+	lines := strings.Split(report, "\n")
+	for i, l := range lines {
+		if (strings.HasPrefix(l, "Write at") || strings.HasPrefix(l, "Read at") || strings.HasPrefix(l, "Previous write at") || strings.HasPrefix(l, "Previous read at")) && i+1 < len(lines) {
+			// first frame that is not runtime/sync internals
+			for j := i + 1; j < len(lines) && strings.HasPrefix(lines[j], "  "); j += 2 {
+				fn := strings.TrimSpace(lines[j])
+				if strings.HasPrefix(fn, "runtime.") || strings.HasPrefix(fn, "sync.") || strings.HasPrefix(fn, "internal/") {
+					continue
+				}
+				fn = strings.TrimSuffix(fn, "()")
+				fn = fn[strings.LastIndex(fn, "/")+1:]
+				fns = append(fns, fn)
+				break
+			}
+		}
+		if len(fns) == 2 {
+			break
+		}
+	}
+	if len(fns) == 0 {
+		return "race-unparsed"
+	}
+	sort.Strings(fns)
+	return "race:" + strings.Join(fns, "~")
+}
+
+func trimReport(r string) string {
+	i := strings.Index(r, "WARNING: DATA RACE")
+	if i < 0 {
+		return r
+	}
+	r = r[i:]
+	if j := strings.Index(r, "Goroutine "); j > 0 {
+		r = r[:j]
+	}
+	return r
+}
+
+func trunc(s string, n int) string {
+	if len(s) > n {
+		return s[:n] + "…"
+	}
+	return s
 }
 
 func writeReplay(dir, prop, eng string, v *engine.Violation, seed uint64, f *runResult, choices []int, trace []string, tier string, race bool, head, fp string) string {
